@@ -45,6 +45,10 @@ class Checker:
         self.parent = {}
         self.reach = set()
         self.shared_xattr_blocks = {}   # block -> number of inodes referencing it
+        self.csum_verified = {}         # object kind -> number of checksums recomputed and compared
+
+    def cv(self, kind):
+        self.csum_verified[kind] = self.csum_verified.get(kind, 0) + 1
 
     def p(self, fam, code, detail=""):
         if len(self.problems) < self.max_problems:
@@ -194,6 +198,7 @@ class Checker:
                 if off + 4 <= len(buf):
                     want = crc.crc32c(seed, buf[:off])
                     got = struct.unpack_from("<I", buf, off)[0]
+                    self.cv("extent_block")
                     if want != got:
                         self.p("F5", "extent-block-csum", "inode %d block %d" % (i.ino, blkno))
             prev_end = lo_bound
@@ -302,6 +307,7 @@ class Checker:
         ino = i.ino
         self.used_inodes.add(ino)
         if img.has_csum:
+            self.cv("inode")
             if i.compute_csum() != i.stored_csum():
                 self.p("F5", "inode-csum", "inode %d" % ino)
         fmt = i.fmt
@@ -376,6 +382,7 @@ class Checker:
             tmp[16:20] = b"\0\0\0\0"
             want = crc.crc32c(self.sb.csum_seed(), struct.pack("<Q", b))
             want = crc.crc32c(want, bytes(tmp))
+            self.cv("xattr_block")
             if want != cs:
                 self.p("F5", "xattr-block-csum", b)
 
@@ -446,6 +453,7 @@ class Checker:
                         tail_ok = True
                         got = struct.unpack_from("<I", buf, img.bs - 4)[0]
                         want = crc.crc32c(seed, buf[:img.bs - 12])
+                        self.cv("dir_leaf")
                         if got != want:
                             self.p("F5", "dirent-csum", "dir %d lblk %d" % (ino, l))
                         des = des[:-1]
@@ -538,6 +546,7 @@ class Checker:
                 c = crc.crc32c(seed, buf[:count_off + count * 8])
                 c = crc.crc32c(c, struct.pack("<I", t_res))
                 c = crc.crc32c(c, b"\0\0\0\0")
+                self.cv("dx_node")
                 if c != t_csum:
                     self.p("F5", "dx-node-csum", "dir %d lblk %d" % (ino, lblk))
             ents = []
@@ -707,6 +716,7 @@ class Checker:
                 want = crc.crc32c(sb.csum_seed(), raw[:cpg // 8])
                 if img.desc_size < 64:
                     want &= 0xFFFF
+                self.cv("block_bitmap")
                 if want != gd.block_bitmap_csum:
                     self.p("F5", "block-bitmap-csum", "group %d" % g)
             free = n - used_here
@@ -737,6 +747,7 @@ class Checker:
                 want = crc.crc32c(sb.csum_seed(), raw[:ipg // 8])
                 if img.desc_size < 64:
                     want &= 0xFFFF
+                self.cv("inode_bitmap")
                 if want != gd.inode_bitmap_csum:
                     self.p("F5", "inode-bitmap-csum", "group %d" % g)
             if ipg - used_i != gd.free_inodes:
@@ -748,10 +759,13 @@ class Checker:
 
     def check_super_and_descs(self):
         img, sb = self.img, self.sb
+        if img.has_csum:
+            self.cv("superblock")
         if img.has_csum and not sb.checksum_ok():
             self.p("F5", "superblock-csum")
         if img.has_gdt_csum:
             for g, gd in enumerate(img.group_descs()):
+                self.cv("group_desc_crc32c" if img.has_csum else "group_desc_crc16")
                 if img.gd_csum(g) != gd.checksum:
                     self.p("F5", "group-desc-csum", "group %d" % g)
         if img.has_csum and sb.has_incompat("mmp") and sb.s_mmp_block and \
@@ -760,6 +774,7 @@ class Checker:
             magic = struct.unpack_from("<I", b, 0)[0]
             if magic == 0x004D4D50:
                 want = crc.crc32c(sb.csum_seed(), b[:1020])
+                self.cv("mmp")
                 if want != struct.unpack_from("<I", b, 1020)[0]:
                     self.p("F5", "mmp-csum")
 
@@ -787,6 +802,12 @@ class Checker:
 
 def check(img, max_problems=200):
     return Checker(img, max_problems).run()
+
+
+def check_with_stats(img, max_problems=200):
+    c = Checker(img, max_problems)
+    pr = c.run()
+    return pr, c.csum_verified
 
 
 def check_path(path):
